@@ -1,8 +1,15 @@
 // x02 binds spec/Qryn.tla (end-to-end composition of qryn for logs, metrics, traces, profiles) to the real code.
 //
-//	x02 probe                          push one request per signal, query every endpoint, print answers and SQL
-//	x02 history -in h.json -out r.json replay TLC-generated histories on the e2e world and compare every answer
-//	x02 record  -out t.ndjson -seed N  free-running mixed workload, recorded as a trace for Trace_Qryn.tla
+//	x02 probe [-v]
+//	    push one request per signal, ask every endpoint, print the decoded answers (-v: raw answers and the SQL each
+//	    endpoint sends: the source of the table-grain read rules in Qryn.tla)
+//	x02 history -in h.json -out r.json
+//	    replay TLC-generated histories (pushes with a per-table fault plan, malformed tails, lost answers, retries, cache
+//	    resets, queries) on the e2e world; after every step ask every endpoint x key x window, compare with the model's
+//	    exported view, and evaluate AckedReadable / RetryIdempotentEnough / RefusedNotHalfVisible / NoCrossSignal on the
+//	    REAL answers
+//	x02 record -out r.json -trace t.ndjson -seed N -n K
+//	    K free-running mixed workloads (seeded generator, larger bounds), recorded as events for Trace_Qryn.tla
 package main
 
 import (
@@ -32,11 +39,6 @@ func probe() int {
 		fmt.Printf("PUSH %s -> %d %.100q blocks %v\n", sig, code, body, log)
 	}
 	fmt.Println("store counts", x.W.Store.Counts, "errs", x.W.StoreErr)
-	if r, err := x.W.Store.DB.Query("SELECT timestamp_ns, tree, functions, values_agg FROM profiles"); err == nil {
-		for _, row := range r.Rows {
-			fmt.Printf("PROFILE ROW %v\n", row)
-		}
-	}
 	var eps []string
 	for e := range endpoints {
 		eps = append(eps, e)
@@ -59,29 +61,6 @@ func probe() int {
 	return 0
 }
 
-func probe2() int {
-	x, err := newX()
-	if err != nil {
-		fmt.Println(err)
-		return 2
-	}
-	defer x.Close()
-	at := x.query("prof_profile_types", 1, Win{0, 0})
-	fmt.Printf("EMPTY profile types: %+v\n", at)
-	good := pushRequest("logs", []Item{{"logs", 1, 0}})
-	bad := good
-	bad.Body = []byte(string(good.Body[:len(good.Body)-2]) + `,{"stream":{"x02":"zz"},"values":[["nan","x"]]}]}`)
-	code, body, log := x.push(bad, 0)
-	fmt.Printf("PUSH bad -> %d %.200q blocks %v\n", code, body, log)
-	code, body, log = x.push(good, 2)
-	fmt.Printf("PUSH good -> %d %.100q blocks %v\n", code, body, log)
-	for _, e := range []string{"loki.query_range", "loki.series", "loki.label_values"} {
-		a := x.query(e, 1, Win{0, 0})
-		fmt.Printf("QUERY %-20s -> %d %v\n", e, a.Code, a.Items)
-	}
-	return 0
-}
-
 func main() {
 	if len(os.Args) < 2 {
 		os.Exit(2)
@@ -101,10 +80,6 @@ func main() {
 		os.Exit(record(*out, *trace, *seed, *n))
 	case "probe":
 		os.Exit(probe())
-	case "probe3":
-		os.Exit(probe3())
-	case "probe2":
-		os.Exit(probe2())
 	}
 	os.Exit(2)
 }
